@@ -522,7 +522,15 @@ def transition_total_signs(ctx, rid):
             ctx.undecided(o, "no signed counter term recognised")
 
 
+def remove_segment_guard(ctx, rid):
+    truth_rule(ctx, "%s.remove_segment.only-real-vehicles" % rid, S("remove_segment"),
+               "remove_segment refuses a vehicle id that is not a real vehicle",
+               [("is a vehicle", lambda ins: "pos" if ins.callee == S("is_vehicle") else None)],
+               lambda c: None if c["is a vehicle"] else "E", "segments are removed from dummy tours through the vehicle path (and real vehicles are refused)")
+
+
 def schedule_predicates(ctx, rid):
+    remove_segment_guard(ctx, rid)
     key = S("check_receiver_type_compatibility")
     fd0 = ctx.an.fd(key) if key in ctx.prog.bodies else None
 
@@ -609,6 +617,14 @@ def transition_formulas(ctx, rid):
                     bad.append("the %s is taken at position %s 1" % (who, "+" if sub[2][1][1] == "Add" else "-"))
             elif len(sub[2]) >= 2 and sub[2][1][0] != "bin" and (sub[1].endswith("TransitionCycle::get") or "slice" in sub[1] or "[T]" in sub[1]):
                 bad.append("the %s is taken at the vehicle's own position (no %s 1)" % (who, "-" if want == "Sub" else "+"))
+    # the wrap tests: position == 0 for the predecessor, position == len - 1 for the successor
+    for ins in fd.body.instrs():
+        if ins.kind == "assign" and ins.rv_kind() == "binop" and ins.rv["op"] in ("Eq", "Ne") and ins.rv.get("aty", "").startswith("usize"):
+            e = shape.normalise(shape.expr_of_instr(fd, ins))
+            for side_e in (e[2], e[3]):
+                if any(c.endswith("::len") for c in shape.calls_of(side_e)):
+                    if not (side_e[0] == "bin" and side_e[1] == "Sub" and any(x[0] == "const" and str(x[1]).startswith("1") for x in side_e[2:])):
+                        bad.append("the last position is tested as `position %s %s` instead of len - 1" % ("==" if ins.rv["op"] == "Eq" else "!=", shape.show(side_e)[:40]))
     if bad:
         ctx.bad(o, "; ".join(sorted(set(bad))) + ": the depot transfers of the rotation cycle are computed between the wrong vehicles", loc=tup[0].line())
     elif f0["end_depot"] and f1["start_depot"] and f0["last"] and f1["first"]:
@@ -686,6 +702,15 @@ def three_opt_details(ctx, rid):
     o2 = ctx.ob("%s.three-opt.new-cycle" % rid, "T12", key, "the new cycle is [..=i] ++ [j+1..=k] ++ [i+1..=j] ++ [k+1..]")
     ext = [c for c in fd.body.calls() if (c.callee or "").endswith("Extend>::extend") or (c.callee or "").endswith("Vec::extend_from_slice")]
     want = [("RangeTo", [(2, 1)]), ("Range", [(3, 1), (4, 1)]), ("Range", [(2, 1), (3, 1)]), ("RangeFrom", [(4, 1)])]
+    if 1 <= len(ext) < 4:
+        kinds = []
+        for c in ext:
+            e = shape.normalise(shape.expr(fd, c.args[1]))
+            kinds += [x[1].split("::")[-1] for x in _find_calls(e, "") if x[1].startswith("agg:core::ops::range::")]
+        if len(kinds) == len(ext) and set(kinds) <= {"RangeTo", "Range", "RangeFrom"}:
+            ctx.bad(o2, "the new cycle is assembled from %d slices instead of four: the vehicles of the missing part drop out of the rotation cycle" % len(ext),
+                    loc=ext[0].line())
+            return
     if len(ext) != 4:
         ctx.undecided(o2, "the new cycle is not assembled by four extend calls (%d)" % len(ext))
         return
